@@ -1,9 +1,9 @@
-//@unit name=pagerio props=C12,C01,C09,C02,C08
+//@unit name=pagerio props=C12,C01,C09,C02
 //@strip-pub
 // Unit `pagerio`: what the pager does with frames that leave the cache (C12: data survives any
 // amount of eviction) and what a checkpoint leaves behind (C01/C09: after Pager::flush the log file is
 // an openable, empty log and every dirty page has been written).
-//@trusted [env] PageCache::insert / clear have the contracts PROVED in unit cache (restated here; insert never hands back a dirty frame: NO-STEAL, fix f7fd299 -- the write-back branch of cache_frame is kept by the code as a defence and is checked against the write-ahead rule all the same)
+//@trusted [env] PageCache::insert / clear have the contracts PROVED in unit cache (restated here WITHOUT insert.evicts_only_free_and_clean: since fix f7fd299 the cache hands back no dirty frame and the write-back branch of cache_frame is a defence that does not run; it is checked here as if it could -- whole page, own page id, log forced first -- and unit nosteal checks, with the full contract of insert, that it does not)
 //@trusted [env] WriteAheadLog::flush / truncate have the contracts PROVED in unit wal (restated here at the granularity "number of blocks in the log file")
 //@trusted [sub] `frame.with_bytes_mut(|bytes| self.write_block(ID, &bytes, SIZE))` (closure over the frame's bytes) is replaced by write_frame_block(&frame, ID, SIZE) with the same ID and SIZE expressions; the checkpoint loop `for page in pages { if page.is_dirty() { ... write_block ... } }` by write_dirty_pages(pages, SIZE)
 //@trusted [env] write_block writes `block_size` bytes at page_number * block_size; sync_header writes page zero; DBFile::flush makes them durable
@@ -43,7 +43,6 @@ impl PageCache {
             r is Ok ==> final(self).frames().contains(frame),
             r is Ok ==> (forall|f: MemFrame| old(self).frames().contains(f) && f.id() != frame.id() ==> final(self).frames().contains(f) || r == Ok::<Option<MemFrame>, IoError>(Some(f))),
             r is Err ==> final(self).frames() == old(self).frames(),
-            r matches Ok(Some(v)) ==> !v.dirty(),      // unit cache: insert.evicts_only_free_and_clean (NO-STEAL)
     { unimplemented!() }
     // contract proved in unit cache (clear.returns_all / clear.empties / clear.keeps_capacity)
     #[verifier::external_body]
@@ -127,7 +126,6 @@ impl Pager {
 //@   [C12:cache_frame.caches_it] r is Ok ==> final(self).cached().contains(frame),
 //@   [C12:cache_frame.dirty_evictee_written] r is Ok ==> (forall|f: MemFrame| old(self).cached().contains(f) && f.id() != frame.id() && f.dirty() ==> final(self).cached().contains(f) || final(self).written_set().contains(f)),
 //@   [C12:cache_frame.returns_id] r matches Ok(i) ==> i == frame.id(),
-//@   [C01,C08:cache_frame.the_data_file_changes_only_at_a_checkpoint] final(self).written_set() == old(self).written_set(),
 //@end
 
 //@fn crates/axmos-db/src/io/pager.rs | impl Write for Pager | flush
